@@ -44,7 +44,10 @@ SOAP12 = "http://www.w3.org/2003/05/soap-envelope"
 PROTS = ["xml", "soap11", "soap12", "json", "yaml", "msgpack", "msgpackrpc", "http"]
 BUILTIN = ["Fault", "ValidationError", "ResourceNotFoundError", "RequestTooLongError",
            "RequestNotAllowed", "InvalidCredentialsError", "ArgumentError", "InternalError",
-           "SubFault"]
+           "SubFault",
+           # generated subclasses of the dedicated errors, and the one the library ships
+           "Sub:ResourceNotFoundError", "Sub:RequestTooLongError", "Sub:RequestNotAllowed",
+           "Sub:InvalidCredentialsError", "Sub:ValidationError", "RespawnError"]
 EXC_TYPES = ["ValueError", "KeyError", "RuntimeError", "ZeroDivisionError", "OSError",
              "UnicodeDecodeError", "Generated"]
 NCNAME = st.text("abcdefghijklmnopqrstuvwxyzABCXYZ", min_size=1, max_size=8)
@@ -84,6 +87,10 @@ def cases(tier):
             det = draw(st.one_of(st.none(), st.none(), details()))
             raised = {"kind": "fault", "cls": cls, "code": code, "msg": msg, "detail": det}
         return {"prot": prot, "transport": transport, "raised": raised,
+                # the method is a generator (declared Iterable) raising before its first yield
+                # (through the real WSGI transport only: it is the transport that drives a
+                # generator up to its first yield before committing to a response)
+                "gen": (transport == "wsgi" or prot == "http") and draw(st.integers(0, 2)) == 0,
                 "tns": "urn:c09x%08x" % draw(st.integers(0, 2 ** 32 - 1))}
     return one()
 
@@ -112,6 +119,12 @@ def make_raiser(raised):
         elif c == "SubFault":
             Sub = type("SubFault", (Fault,), {"__namespace__": "urn:c09faults"})
             inst = Sub(code, msg, detail=det)
+        elif c.startswith("Sub:"):
+            base = getattr(error, c[4:])
+            Sub = type("My" + c[4:], (base,), {})
+            inst = Sub(msg, det) if c[4:] == "InvalidCredentialsError" else Sub(msg)
+        elif c == "RespawnError":
+            inst = error.RespawnError(msg)
         elif c == "ValidationError":
             inst = error.ValidationError(msg)
         elif c == "ResourceNotFoundError":
@@ -130,7 +143,9 @@ def make_raiser(raised):
 
         def fn(ctx, args):
             raise inst
-        return fn, exp, type(inst)
+        dedicated = [b for b in ("RequestTooLongError", "ResourceNotFoundError", "RequestNotAllowed",
+                                 "InvalidCredentialsError") if isinstance(inst, getattr(error, b))]
+        return fn, exp, (getattr(error, dedicated[0]) if dedicated else type(inst))
     tm, ta, ts, tr, tc, tl = raised["tokens"]
     et = raised["etype"]
     if et == "Generated":
@@ -285,7 +300,16 @@ def run_case(case, rec):
         raiser(ctx, (s,))
         return RET_TOKEN
 
-    Svc = type("Svc", (Service,), {"m0": rpc(Unicode, _returns=Unicode, _args=["s"])(m0)})
+    def g0(ctx, s):
+        calls.append(s)
+        raiser(ctx, (s,))
+        yield RET_TOKEN
+
+    if case.get("gen"):
+        from spyne.model.complex import Iterable
+        Svc = type("Svc", (Service,), {"m0": rpc(Unicode, _returns=Iterable(Unicode), _args=["s"])(g0)})
+    else:
+        Svc = type("Svc", (Service,), {"m0": rpc(Unicode, _returns=Unicode, _args=["s"])(m0)})
     app = Application([Svc], tns=case["tns"], in_protocol=inp, out_protocol=outp,
                       name="C09App")
     tns = case["tns"]
@@ -367,7 +391,7 @@ def run_case(case, rec):
                 fails.append(("C09|detail-differs|%s|%s" % (prot, "none" if edet is None else "dict"),
                               "%s: raised detail %r, client sees %r" % (where, edet, det)))
         if status is not None:
-            es = expected_status(prot, raised["cls"], ecode)
+            es = expected_status(prot, fcls.__name__, ecode)
             if status != es:
                 fails.append(("C09|http-status|%s|%s|%s!=%s" % (prot if prot.startswith("soap") else "nonsoap",
                                                                 raised["cls"], status, es),
